@@ -458,6 +458,10 @@ var blockMakers = []func(*vh.Rand, int) block{blkObjProps, blkObjProps, blkStdCl
 func genOwn(r *vh.Rand) genProg {
 	n := r.Range(1, 5)
 	var p genProg
+	if r.Chance(6) { // nothing but a diagnostic: no output before it
+		p.Blocks = append(p.Blocks, blkFatal(r, 0))
+		return p
+	}
 	for i := 0; i < n; i++ {
 		p.Blocks = append(p.Blocks, vh.Pick(r, blockMakers)(r, i))
 	}
